@@ -518,7 +518,7 @@ func TestVerifC06(t *testing.T) {
 	defer out.Close()
 	thorough := verifh.Tier() == "thorough"
 	rnd := verifh.NewRand(verifh.Seed())
-	budget := 1200
+	budget := 800
 	if thorough {
 		budget = 20000
 	}
@@ -573,11 +573,36 @@ func TestVerifC06(t *testing.T) {
 			}
 		}
 	}
+	// (3b) three conns with every Connected blocking / the run loop blocking, with and without Close
+	for peers := 1; peers <= 2; peers++ {
+		for gate := 1; gate <= 2; gate++ {
+			for cl := 0; cl < 2; cl++ {
+				if !thorough && (peers == 1 || cl == 0) {
+					continue
+				}
+				cfg := &c06Cfg{fused: true, withClose: cl == 1, blockRead: gate == 2}
+				for i := 0; i < 3; i++ {
+					cfg.conns = append(cfg.conns, c06ConnCfg{peer: i % peers, lim: i == 2, closeIt: true, blockConn: gate == 1})
+				}
+				c06Explore(t, out, cfg, budget, "three_conns_gated")
+			}
+		}
+	}
+	// (3c) thorough: four conns over two peers (direct and limited), fused stimuli
+	if thorough {
+		for gate := 0; gate < 2; gate++ {
+			cfg := &c06Cfg{fused: true}
+			for i := 0; i < 4; i++ {
+				cfg.conns = append(cfg.conns, c06ConnCfg{peer: i % 2, lim: i == 1 || i == 2, closeIt: true, blockConn: gate == 1 && i == 0})
+			}
+			c06Explore(t, out, cfg, budget*2, "four_conns")
+		}
+	}
 	// (4) random schedules of random configurations
 	nrand := 400
 	maxConns := 3
 	if thorough {
-		nrand = 20000
+		nrand = 40000
 		maxConns = 4
 	}
 	for k := 0; k < nrand; k++ {
